@@ -156,6 +156,19 @@ let eval (w : string array) : float list =
     let runs = List.init nruns (fun _ -> let nfr = ni () in List.init nfr (fun _ -> let g1 = group () in let g2 = group () in (g1, g2))) in
     (* the list before the first run is irrelevant (every run starts with a rebuild): start from an empty one *)
     List.concat (pl_session fops (z_of_int freq) r0 rv (z_of_int en) (z_of_int ed) tol cell [] runs)
+  | "selfCoordNumPL" ->
+    (* pair list built at the first positions, value at the second *)
+    let r0 = nf () in let en = ni () in let ed = ni () in let tol = nf () in
+    let g = group () in let h = group () in
+    let pl = pl_build_pts fops r0 None (z_of_int en) (z_of_int ed) tol cell (self_pts g) in
+    [pl_value_pts fops pl r0 None (z_of_int en) (z_of_int ed) tol cell (self_pts h)]
+  | "coordNumCenterPL" ->
+    let r0 = nf () in let aniso = ni () <> 0 in let r0v = v3 () in
+    let en = ni () in let ed = ni () in let tol = nf () in
+    let g1 = group () in let g2 = group () in let h1 = group () in let h2 = group () in
+    let rv = if aniso then Some r0v else None in
+    let pl = pl_build_pts fops r0 rv (z_of_int en) (z_of_int ed) tol cell (center_pairs fops g1 g2) in
+    [pl_value_pts fops pl r0 rv (z_of_int en) (z_of_int ed) tol cell (center_pairs fops h1 h2)]
   | "aspath" | "azpath" ->
     (* lambda (<0: automatic), number of frames, atoms per frame, frames, group *)
     let lam = nf () in
